@@ -6,18 +6,26 @@ package signaling_rpc_server
 // mtx protects the two tables and every tracker object as a whole.
 //@ guards Server.mtx: peers, sessions, *sessionTracker, *sessionPeerTracker, *serverPeerTracker
 
+// chanClosed[c]: channel c has been closed (wake-up channels of the trackers).
+//@ ghost heap chanClosed ptr bool
+
 // Helpers of the trackers (called with mtx held).
 //@ func (*sessionTracker).checkSeqno
 //@   ensures (ret1 != nil) <==> t.seqno < seqno
 //@   ensures ret1 == nil ==> (ret0 <==> t.seqno == seqno)
 //@ func (*sessionTracker).broadcast
 //@   modifies t
-//@   ensures t.seqno == old(t.seqno) && t.peerA == old(t.peerA) && t.peerB == old(t.peerB)
+//@   ensures t.seqno == old(t.seqno) && t.peerA == old(t.peerA) && t.peerB == old(t.peerB) && t.wait == nil
+//@   ensures old(t.wait) != nil ==> chanClosed[old(t.wait)]
+//@   ensures forall c ptr :: c != old(t.wait) ==> chanClosed[c] == old(chanClosed[c])
 //@ func (*sessionTracker).getWaitCh
 //@   modifies t
 //@   ensures t.seqno == old(t.seqno) && t.peerA == old(t.peerA) && t.peerB == old(t.peerB)
+//@   ensures ret != nil && ret == t.wait && (old(t.wait) != nil ==> ret == old(t.wait))
+//@   ensures forall c ptr :: c != ret || old(t.wait) != nil ==> chanClosed[c] == old(chanClosed[c])
 //@ func (*serverPeerTracker).broadcast
 //@   modifies p
+//@   ensures forall c ptr :: c != old(p.wait) ==> chanClosed[c] == old(chanClosed[c])
 //@   ensures p.listening == old(p.listening) && p.wantPeers == old(p.wantPeers) && p.listenNonce == old(p.listenNonce)
 //@ func (*serverPeerTracker).getWaitCh
 //@   modifies p
@@ -31,6 +39,7 @@ package signaling_rpc_server
 // peer's ID, and only when the message's epoch equals the session's; a newer epoch is an error.
 //@ func (*Server).Session$2
 //@   noframe
+//@   cs Server.mtx ensures forall t *sessionTracker trigger t.wait :: old(isobj(t)) && (t.seqno != old(t.seqno) || t.peerA != old(t.peerA) || t.peerB != old(t.peerB) || t.wait != old(t.wait)) ==> old(t.wait) == nil || chanClosed[old(t.wait)]
 //@   requires isobj(s) && isobj(sess) && isobj(ourPeerTkr)
 //@   requires sendMsg == nil || (isobj(sendMsg) && (sendMsg.SignedMsg == nil || isobj(sendMsg.SignedMsg)))
 //@   ensures forall t *sessionPeerTracker trigger t.recv :: atlock(isobj(t)) && t.recv != atlock(t.recv) ==> ret == nil && t.recv == sendMsg && msgSessionSeqno == atlock(sess.seqno)
@@ -46,6 +55,7 @@ package signaling_rpc_server
 // that number. No pending message is touched.
 //@ func (*Server).Session$3
 //@   noframe
+//@   cs Server.mtx ensures forall t *sessionTracker trigger t.wait :: old(isobj(t)) && (t.seqno != old(t.seqno) || t.peerA != old(t.peerA) || t.peerB != old(t.peerB) || t.wait != old(t.wait)) ==> old(t.wait) == nil || chanClosed[old(t.wait)]
 //@   requires isobj(s) && isobj(sess) && isobj(ourPeerTkr)
 //@   cs Server.mtx ensures forall t *sessionPeerTracker trigger t.recv :: old(isobj(t)) ==> t.recv == old(t.recv) && t.recvClear == old(t.recvClear)
 //@   cs Server.mtx ensures forall t *sessionPeerTracker trigger t.recvSent :: old(isobj(t)) && t.recvSent != old(t.recvSent) ==> t == ourPeerTkr && t.recvSent == nil && old(t.recvSent) != nil && old(deref(t.recvSent)) == ack && msgSessionSeqno == old(sess.seqno)
@@ -57,6 +67,7 @@ package signaling_rpc_server
 // number; a transmission record is turned into a clear notice only if it names exactly that number.
 //@ func (*Server).Session$4
 //@   noframe
+//@   cs Server.mtx ensures forall t *sessionTracker trigger t.wait :: old(isobj(t)) && (t.seqno != old(t.seqno) || t.peerA != old(t.peerA) || t.peerB != old(t.peerB) || t.wait != old(t.wait)) ==> old(t.wait) == nil || chanClosed[old(t.wait)]
 //@   requires isobj(s) && isobj(sess) && isobj(ourPeerTkr)
 //@   cs Server.mtx ensures forall t *sessionPeerTracker trigger t.recv :: old(isobj(t)) && t.recv != old(t.recv) ==> t.recv == nil && old(t.recv) != nil && old(t.recv.Seqno) == clear && msgSessionSeqno == old(sess.seqno)
 //@   cs Server.mtx ensures forall t *sessionPeerTracker trigger t.recvSent :: old(isobj(t)) && t.recvSent != old(t.recvSent) ==> t.recvSent == nil && old(t.recvSent) != nil && old(deref(t.recvSent)) == clear && t.recvClear != nil && deref(t.recvClear) == clear && msgSessionSeqno == old(sess.seqno)
@@ -159,4 +170,9 @@ package signaling_rpc_server
 //@   requires sessAnnounced[strm] == 0
 //@   loop 1 invariant prevSentOpenToLocal == nil ==> sessAnnounced[strm] == 0
 //@   loop 1 invariant prevSentOpenToLocal != nil ==> wholeobj(prevSentOpenToLocal) && sessAnnounced[strm] == deref(prevSentOpenToLocal)
+// Whenever the writer is about to block, a wake-up is already pending or the local peer has been
+// told the session's current state (open with the current epoch, or closed): this covers a peer
+// that has just attached and every re-open.
+//@   loop 1 invariant chanClosed[waitCh] || ((localIsPeerA ==> (sess.peerB != nil ==> sessAnnounced[strm] == sess.seqno) && (sess.peerB == nil ==> sessAnnounced[strm] == 0)) && (!localIsPeerA ==> (sess.peerA != nil ==> sessAnnounced[strm] == sess.seqno) && (sess.peerA == nil ==> sessAnnounced[strm] == 0)))
+//@   cs Server.mtx ensures forall t *sessionTracker trigger t.wait :: old(isobj(t)) && (t.seqno != old(t.seqno) || t.peerA != old(t.peerA) || t.peerB != old(t.peerB) || t.wait != old(t.wait)) ==> old(t.wait) == nil || chanClosed[old(t.wait)]
 //@   assert at call invoke.Send: (istype(arg0.Body, ptr(signaling_rpc.SessionResponse_RecvMsg)) || istype(arg0.Body, ptr(signaling_rpc.SessionResponse_AckMsg)) || istype(arg0.Body, ptr(signaling_rpc.SessionResponse_ClearMsg))) ==> sessAnnounced[strm] == atlock(sess.seqno)
